@@ -175,7 +175,7 @@ def _wanted(path, prop, only_file=None):
     return (not ids) or (prop in ids)
 
 
-def make_overlay(dst, extra_tests=None, prop=None, only_file=None):
+def make_overlay(dst, extra_tests=None, prop=None, only_file=None, strip_covers=False):
     """Copy /repo's *current working tree* sources and append the harness modules.
     extra_tests: {harness_file_path: rust code inserted before that module's closing brace}."""
     os.makedirs(dst, exist_ok=True)
@@ -198,6 +198,9 @@ def make_overlay(dst, extra_tests=None, prop=None, only_file=None):
         if not os.path.exists(target):
             raise SystemExit("harness dir %s has no matching src/%s.rs in the repository" % (src, src))
         text = expand_stubs(open(path).read())
+        if strip_covers:
+            # counter-example extraction solves once per failed check AND once per cover: the covers are not needed for a replay
+            text = re.sub(r"^[ \t]*kani::cover!\([^\n]*\);[ \t]*$", "", text, flags=re.M)
         if extra_tests and path in extra_tests:
             k = text.rstrip().rfind("}")
             text = text[:k] + "\n" + extra_tests[path] + "\n}\n"
@@ -432,7 +435,7 @@ def playback(h, logdir):
     """Confirm a counter-example natively: ask Kani for concrete values, add the generated unit test to the
     harness module in a fresh overlay, run it with `cargo kani playback` (no stubs, real code)."""
     root = scratch_root()
-    overlay = getattr(h, "perfile_overlay", None) or os.path.join(root, "ind")
+    overlay = make_overlay(os.path.join(root, "ind_cex"), prop=h.id, only_file=getattr(h, "only_file", None), strip_covers=True)
     tdir = os.path.join(root, "target_pb")
     # (extracting the trace makes the Kani driver itself allocate a lot: a generous address-space cap for this one run)
     r = run_harness(h, overlay, tdir, logdir, extra=["-Z", "concrete-playback", "--concrete-playback=print"], tag=".cex", cap_gb=max(40, h.mem),
